@@ -17,7 +17,12 @@ ENGINES = {
     "guards": ("nqsa/guards.py", "structural dominators, raising guards, range-predicate decision, pure predicate evaluation"),
     "flow": ("nqsa/flow.py", "per-function CFG, dominators, guards, path rules"),
     "emit": ("nqsa/emit.py", "emission model of builder code (ICmd constructions, operand roles)"),
-    "circuit": ("nqsa/circuit.py", "checker-side AST interpreter over symbolic / model values (gate lists, emitters, small functions over enumerated domains) + operator semantics"),
+    "circuit": ("nqsa/circuit.py", "checker-side AST interpreter (classes, properties, decorators, closures, generators as coroutines, with / try / raise, namedtuples, ctypes through a model) over symbolic, model and concrete values + operator semantics"),
+    "cmodel": ("nqsa/cmodel.py", "model of ctypes structures for the interpreter (truncating stores, bit-fields, bytes, from_buffer_copy) on top of the layout model"),
+    "codec": ("nqsa/codec.py", "executed binary codec: every instruction class's own serialize / deserialize_from on enumerated operands, subroutine framing"),
+    "pipeline": ("nqsa/pipeline.py", "executed flush / compile pipeline against the repository's own Builder / MemoryManager bookkeeping"),
+    "session": ("nqsa/session.py", "the repository's own objects built by their constructors and driven by the interpreter: Executor, parser, NV transpiler, DebugConnection ... QNodeController, modelled link layer; forked worker pool"),
+    "refsem": ("nqsa/refsem.py", "reference semantics of the classical core of NetQASM (the checker's own statement of what the instructions mean)"),
 }
 
 
@@ -67,7 +72,9 @@ def main():
             for k, v in ENGINES.items() if os.path.exists(os.path.join(ROOT, v[0]))
         ],
         "checks": checks,
-        "notes": "Static analysis only: every check parses /repo's current working tree with ast (python3-vt), never imports or runs netqasm. "
+        "notes": "Every check parses /repo's current working tree with ast (python3-vt) and never imports or runs netqasm under Python. Two kinds of rules (DESIGN.md sections 0.1 and 12): "
+                 "static rules over shapes, tables, paths and types, and abstract execution - the repository's syntax trees interpreted by the checker's own interpreter on enumerated inputs with the collaborators named in DESIGN.md modelled; "
+                 "each check's `technique` says which kind decides. "
                  "Exit 0 = held (KNOWN-FINDING lines for listed genuine defects), 1 = VIOLATION, 2 = ANALYSIS-ERROR (anchor vanished / unknown idiom). "
                  "thorough = quick rules + seeded-mutation self-test of those rules on scratch copies.",
         "not_applicable": na,
